@@ -227,3 +227,70 @@ def scenario(draw, profile):
     for _ in range(ncmds):
         lines.append("at %s %s %s" % (fhex(draw(st.sampled_from(TIMES))), draw(PRIOS), gen_op(False)))
     return "\n".join(lines) + "\n"
+
+
+@st.composite
+def stress(draw, heavy=False):
+    """C10: container populations on both sides of their growth thresholds at the moment the library
+    iterates over them or holds a pointer into them (DESIGN.md par. 3 C10)."""
+    kind = draw(st.sampled_from(["event-waiters", "event-waiters", "proc-waiters", "guard-waiters"]
+                                + (["timers", "queue-tags"] if heavy else [])))
+    L = ["mode sim", "start 0"]
+    if kind == "event-waiters":
+        n = draw(st.sampled_from([1, 2, 3, 7, 8, 9, 15, 16, 17, 33]))
+        evprio = draw(st.sampled_from([0, 1, -1]))
+        L.append("proc p0 prio 0 start 0 sprio 0")
+        L.append("op usched %s %d" % (fhex(1.0), evprio))
+        extra = draw(st.sampled_from(["", "hold", "exit"]))
+        if extra == "hold":
+            L.append("op hold %s" % fhex(2.0))
+        for i in range(1, n + 1):
+            L.append("proc p%d prio %d start 0 sprio 0" % (i, draw(st.sampled_from([0, 0, 1, -1]))))
+            if draw(st.integers(0, 3)) == 0:
+                L.append("op timer_add %s -5" % fhex(draw(st.sampled_from([1.0, 2.0]))))
+            L.append("op wait_ev 0")
+            if draw(st.integers(0, 2)) == 0:
+                L.append("op hold %s" % fhex(0.0))
+        how = draw(st.sampled_from(["execute", "execute", "cancel"]))
+        # bring the queue to its capacity minus j just before the awaited event is dispatched
+        L.append("at %s %d fill_to 0 %d" % (fhex(1.0), evprio + 2, draw(st.integers(0, 3))))
+        if how == "cancel":
+            L.append("at %s %d ucancel 0" % (fhex(1.0), evprio + 1))
+    elif kind == "proc-waiters":
+        n = draw(st.sampled_from([1, 7, 8, 9, 17, 33]))
+        L.append("proc p0 prio 0 start 0 sprio 0")
+        L.append("op hold %s" % fhex(1.0))
+        L.append(draw(st.sampled_from(["op return 3", "op exit 4", "op stop p0 5", "op hold 0x1p3"])))
+        for i in range(1, n + 1):
+            L.append("proc p%d prio %d start 0 sprio 0" % (i, draw(st.sampled_from([0, 0, 1, -1]))))
+            L.append("op wait_proc p0")
+        L.append("at %s 3 fill_to 0 %d" % (fhex(1.0), draw(st.integers(0, 3))))
+        if draw(st.booleans()):
+            L.append("at %s 2 stop p0 7" % fhex(1.0))
+    elif kind == "guard-waiters":
+        n = draw(st.sampled_from([7, 8, 9, 15, 16, 17, 20]))
+        L.insert(2, "res R0")
+        L.insert(3, "pool P0 2")
+        L.append("proc p0 prio 5 start 0 sprio 0")
+        L += ["op acquire R0", "op pacq P0 2", "op hold %s" % fhex(1.0), "op release R0", "op prel P0 2"]
+        for i in range(1, n + 1):
+            L.append("proc p%d prio %s start 0 sprio 0" % (i, draw(PRIOS)))
+            L.append(draw(st.sampled_from(["op acquire R0", "op pacq P0 1", "op preempt R0", "op ppre P0 1"])))
+            L.append(draw(st.sampled_from(["op hold 0x0p0", "op release R0", "op prel P0 1", "op return 1"])))
+        for _ in range(draw(st.integers(0, 3))):
+            L.append("at %s %s %s p%d %s" % (fhex(draw(st.sampled_from([0.5, 1.0]))), draw(PRIOS),
+                                            draw(st.sampled_from(["setprio", "stop"])), draw(st.integers(1, n)),
+                                            draw(st.sampled_from([3, -3, 0]))))
+    elif kind == "timers":
+        n = draw(st.sampled_from([127, 128, 129, 8191, 8192, 8200]))
+        L.append("proc p0 prio 0 start 0 sprio 0")
+        L.append("op rep %d timer_add %s 3" % (n, fhex(1.0)))
+        L.append(draw(st.sampled_from(["op timers_clear", "op hold 0x1p1", "op return 1", "op timer_set 0x1p0 4"])))
+        L.append("op hold %s" % fhex(2.0))
+    else:
+        n = draw(st.sampled_from([255, 256, 257, 16383, 16384, 16400]))
+        L.insert(2, "oq Q0 unlimited")
+        L.append("proc p0 prio 0 start 0 sprio 0")
+        L.append("op rep %d oput Q0 1" % n)
+        L.append("op rep %d oget Q0" % draw(st.sampled_from([1, n - 1, n])))
+    return "\n".join(L) + "\n"
